@@ -340,6 +340,30 @@ func Gen(r *hx.Rng, tier string, w io.Writer) {
 	fmt.Fprintf(w, "flagreach fl=%s\n", showPairs([]pair{{"no_such_flag", "x"}}))
 	fmt.Fprintf(w, "load f=%s fl=- fi=%s\n", opts[0].Go, showPairs([]pair{{"no.such.key", "x"}, {"node.no_such", "y"}}))
 
+	// 6b. key case: viper lower-cases the keys of the file
+	for i := 0; i < 3; i++ {
+		f := opts[r.Intn(len(opts))]
+		fmt.Fprintf(w, "load f=%s fl=- fi=%s\n", f.Go, showPairs([]pair{{strings.ToUpper(f.YAML), pick(r, f, f.Def)}}))
+	}
+	// 6c. values that are not of the option's type, files of the wrong shape: no panic (outcome not predicted)
+	bad := map[string][]string{"uint": {"abc", "-1", "1.5", "18446744073709551616", ""}, "int": {"abc", "1.5", "9223372036854775808"},
+		"bool": {"maybe", "2", ""}, "float": {"abc", "1e999", ""}, "duration": {"abc", "5", "1x", ""}, "string": {"[1, 2]", "{a: 1}"}}
+	for _, f := range opts {
+		for _, v := range bad[f.Kind] {
+			if !r.Chance(35) && tier != "thorough" {
+				continue
+			}
+			fmt.Fprintf(w, "loadx style=bool fl=- fi=%s\n", showPairs([]pair{{f.YAML, v}}))
+			fmt.Fprintf(w, "loadx style=string fl=- fi=%s\n", showPairs([]pair{{f.YAML, v}}))
+			if nf, has := g.flagNaming(f); has {
+				fmt.Fprintf(w, "loadx style=string fl=%s fi=-\n", showPairs([]pair{{nf.Name, v}}))
+			}
+		}
+	}
+	for _, raw := range []string{"node: 5\n", "node:\n  block_time:\n    x: 1\n", "- a\n- b\n", "instrumentation: null\n", "instrumentation: []\n", ": :\n\t", "node: [1,2]\nda: x\n", "\x00\x01", "signer: {signer_type: {a: b}}\n"} {
+		fmt.Fprintf(w, "loadx style=string fl=- fi=- raw=%s\n", hx.Hex([]byte(raw)))
+	}
+
 	// 7. genesis: every refusal condition deliberately, then random values
 	fmt.Fprintln(w, "reset")
 	a32 := hx.Hex(r.Bytes(32))
